@@ -23,6 +23,8 @@ func main() {
 		os.Exit(jsonrtMain(os.Args[2:]))
 	case "txtqr":
 		os.Exit(txtqrMain(os.Args[2:]))
+	case "tlspeer":
+		os.Exit(tlspeerMain(os.Args[2:]))
 	case "connstep":
 		os.Exit(connstepMain(os.Args[2:]))
 	default:
